@@ -31,7 +31,7 @@ REQUIRED = ["contract:Assertion.set_p_values", "contract:Audit.summarize_status"
             "p_equal_to_limit_confirmed", "second_call_same_length_different_data", "contest_meets_neighbours_limit_not_own",
             "params_silent", "params_rejected", "proved_sticky_observed",
             "test_objects_hold_another_bound_before_call", "tests_configured_with_random_order_false",
-            "mixed_audit_polling_contest_among_comparison_contests"]
+            "mixed_audit_polling_contest_among_comparison_contests", "status_asked_for_copied_contests_with_other_limits"]
 ASSUMPTIONS = ["samples have at least one observation per assertion", "summarize_status prints: stdout is swallowed, not parsed"]
 N_CASES = {"quick": 9600, "thorough": 80000}
 
@@ -277,6 +277,19 @@ def run_case(es, rec):
             if not ok:
                 return
             seen.add(bool(done))
+            if rng.random() < 0.3:
+                # the same audit looked at under other risk limits: shallow copies of the Contest objects (they share the
+                # Assertion objects, whose back-reference still points to the original contest) with other limits
+                lim2 = rng.choice((0.001, 0.01, 0.2, 0.5))
+                c2 = {}
+                for cid_, con_ in sim.contests.items():
+                    cc = copy.copy(con_)
+                    cc.risk_limit = lim2 if rng.random() < 0.7 else con_.risk_limit
+                    c2[cid_] = cc
+                rec.count("status_asked_for_copied_contests_with_other_limits")
+                ok, _ = rec.guard("c09.call:summarize_status", audit.summarize_status, c2)
+                if not ok:
+                    return
             for con in sim.contests.values():
                 for asn in con.assertions.values():
                     seen.add(("p_ok", asn.p_value <= con.risk_limit))
